@@ -10,7 +10,7 @@ import fw
 
 ID = 'C02'
 LEVEL = 'proof'
-LEAN_TARGETS = ['BareProofs.C02']
+LEAN_TARGETS = ['BareProofs.C02', 'BareProofs.C02Print']
 DRIVER = 'drv_c02'
 DRIVER_ROOT = 'Drv.C02'
 GEN = ['Reorder', 'Regex']
@@ -21,6 +21,10 @@ THEOREMS = [
     # text level
     'C02.regex_sources_pinned', 'C02.parse_uses_chain', 'C02.parse_deep_wf', 'C02.unary_tighter', 'C02.group_overrides',
     'C02.fuel_sufficient', 'C02.reject_is_parser_error', 'C02.accept_faithful',
+    # text level, print/parse round trip (BareProofs/C02Print.lean; printer and class in BareModel/Print.lean)
+    'C02.parse_print', 'C02.parse_print_ws', 'C02.parse_printPad', 'C02.print_injective', 'C02.printL_head',
+    'C02.parse_in_image', 'C02.image_of_printable', 'C02.printable_of_image', 'C02.printable_of_parse_partial', 'C02.parse_print_parse',
+    'C02.render_ofString', 'C02.numOk_decVal',
 ]
 ASSUMPTIONS = [
     'CPython re engine: the hand-written scanners of the model (BareModel/ExprScan.lean) re-implement each anchored token pattern, '
@@ -735,6 +739,207 @@ def stream_tokens(ctx):
         compare_text(ctx, 'tokens', st, text, resp, [kind], nontrivial=len(text) >= 2, modelled=m)
 
 
+
+# ---------------------------------------------------------------------------------------------------------------------
+# print-parse: the canonical printer of the model (Print.printExpr, the text theorem C02.parse_print talks about) against
+# the real parser
+# ---------------------------------------------------------------------------------------------------------------------
+
+PP_IDENTS = IDENTS + ['f', 'g', 'n', 'i', 'null', 'true', 'false', 'elif', 'return', '__bareScriptIf07', '__bareScriptIf7', '__bareScript',
+                      '__bareScriptDone12', 'x__bareScriptIf7']
+PP_ODD_NAMES = ['a b', 'x y]z', ' ', '\t', '　', '9lives', 'a-b', 'a.b', 'é', 'café', 'a\\b', '\\]', ']', '[', '[x]', 'a]', ']]', "it's",
+                'a"b', 'π r²', '\U0001f600', 'a ', 'a \t', 'tab\there', 'new\nline', '\\\\x', '\\x', 'a\\]b', '(', ')', ',', '1', '1.5', '-',
+                '!', 'a,b', '٣', 'a b', "'", '"', '#', ':', '=', 'x\\ ', '中文']
+PP_BAD_NAMES = ['', ' a', '　a', '\ta b', 'a\\', '\\', 'a b\\', '  ', '\\\\', ']\\']
+PP_FUNCS = FUNCS + ['f', 'g', 'x', '_', 'null', 'systemFetch', 'A']
+PP_BAD_FUNCS = ['', 'a b', '1f', 'f-g', 'café', 'f(', ' f', '[f]']
+PP_PADS = ['', '', ' ', ' ', '  ', '\t', ' \t ', '\n', '\r\n', '\x0b\x0c', '\x1c\x1f', '\x85', '\xa0', ' ', '  ', ' ', ' ',
+           '  ', '　']
+_PP_IDENT = re.compile(r'[A-Za-z_][A-Za-z0-9_]*\Z')
+
+
+def py_printable(e):
+    """The printable class, re-stated in Python from the documented conditions (cross-check of Print.printable)."""
+    (k, v), = e.items()
+    if k == 'number':
+        num, den = v
+        while den % 2 == 0:
+            den //= 2
+        while den % 5 == 0:
+            den //= 5
+        return num >= 0 and den == 1
+    if k == 'string':
+        return True
+    if k == 'variable':
+        if _PP_IDENT.match(v):
+            return True
+        if len(v) == 1:
+            return v != '\\'
+        return len(v) > 1 and not v[0].isspace() and v[-1] != '\\'
+    if k == 'function':
+        return bool(_PP_IDENT.match(v['name'])) and all(py_printable(a) for a in v['args'])
+    if k == 'group':
+        return py_printable(v)
+    if k == 'unary':
+        return 'binary' not in v['expr'] and py_printable(v['expr'])
+    left, right, op = v['left'], v['right'], v['op']
+    if 'binary' in left and PREC[left['binary']['op']] < PREC[op]:
+        return False
+    if 'binary' in right and PREC[right['binary']['op']] <= PREC[op]:
+        return False
+    return py_printable(left) and py_printable(right)
+
+
+class TreeGen:
+    """Random expression TREES (not texts).  Mostly inside the printable class by construction (a child that would violate
+    the precedence conditions is wrapped in a group node), with deliberate defects at a small rate: bare low-precedence
+    children, unary of a binary, negative / non-decimal numbers, empty / blank-led / backslash-ended names, bad call names."""
+
+    def __init__(self, rng, defect=0.02):
+        self.rng = rng
+        self.defect = defect
+        self.backslashes = 0
+
+    def bad(self):
+        return self.rng.random() < self.defect
+
+    def number(self):
+        r = self.rng
+        k = r.random()
+        if k < 0.3:
+            fr = Fraction(r.randint(0, 20))
+        elif k < 0.5:
+            fr = Fraction(r.randint(0, 10 ** r.randint(1, 30)))
+        elif k < 0.8:
+            fr = Fraction(r.randint(0, 10 ** r.randint(1, 9)), 10 ** r.randint(1, 8))
+        elif k < 0.9:
+            fr = Fraction(r.randint(0, 4000), 2 ** r.randint(1, 12))
+        else:
+            fr = Fraction(r.choice([1, 3, 7, 123456789, 2 ** 53 + 1, 10 ** 22 + 1, 5, 314159]), r.choice([1, 10, 1000, 5 ** 9, 10 ** 17, 2 ** 40, 10 ** 30]))
+        if self.bad():
+            fr = -fr - 1 if r.random() < 0.5 else fr + Fraction(1, r.choice([3, 7, 6, 11, 30, 9 * 10 ** 6]))
+        return {'number': [fr.numerator, fr.denominator]}
+
+    def string(self):
+        r = self.rng
+        out = []
+        for _ in range(r.choice([0, 1, 1, 2, 3, 5, 8, 13])):
+            k = r.random()
+            if k < 0.12:
+                out.append("'")
+            elif k < 0.2:
+                out.append('"')
+            elif k < 0.3 and self.backslashes < 6:
+                self.backslashes += 1
+                out.append('\\')
+            else:
+                out.append(r.choice(STR_CHARS))
+        return {'string': ''.join(out)}
+
+    def variable(self):
+        r = self.rng
+        if self.bad():
+            return {'variable': r.choice(PP_BAD_NAMES)}
+        k = r.random()
+        if k < 0.5:
+            return {'variable': r.choice(PP_IDENTS)}
+        if k < 0.6:
+            return {'variable': r.choice('abcxyzABC_') + ''.join(r.choice('abcxyz_0123456789ABC') for _ in range(r.randint(0, 8)))}
+        if k < 0.85:
+            name = r.choice(PP_ODD_NAMES)
+        else:
+            name = ''.join(r.choice(BR_CHARS + [']', ']', '\\']) for _ in range(r.randint(1, 7)))
+            if len(name) > 1 and r.random() < 0.9:     # mostly inside the class: no leading blank, no trailing backslash
+                name = ('v' if name[0].isspace() else name[0]) + name[1:-1] + ('v' if name[-1] == '\\' else name[-1])
+        if name.count('\\') + self.backslashes > 6:
+            name = name.replace('\\', 'b') or 'b'
+        self.backslashes += name.count('\\')
+        return {'variable': name}
+
+    def call(self, depth):
+        r = self.rng
+        name = r.choice(PP_BAD_FUNCS) if self.bad() else r.choice(PP_FUNCS)
+        return {'function': {'args': [self.expr(depth - 1) for _ in range(r.choice([0, 1, 1, 2, 2, 3, 4]))], 'name': name}}
+
+    def operand(self, depth):
+        r = self.rng
+        k = r.random()
+        if depth > 1 and k < 0.2:
+            return {'group': self.expr(depth - 1)}
+        if depth > 1 and k < 0.38:
+            return self.call(depth)
+        if depth > 1 and k < 0.54:
+            inner = self.expr(depth - 1) if self.bad() else self.operand(depth - 1)
+            return {'unary': {'expr': inner, 'op': r.choice('!-')}}
+        k = r.random()
+        if k < 0.3:
+            return self.number()
+        if k < 0.5:
+            return self.string()
+        return self.variable()
+
+    def expr(self, depth):
+        r = self.rng
+        if depth <= 1 or r.random() < 0.3:
+            return self.operand(depth)
+        op = r.choice(OPS)
+        left = self.expr(depth - 1)
+        right = self.expr(depth - 1)
+        if 'binary' in left and PREC[left['binary']['op']] < PREC[op] and not self.bad():
+            left = {'group': left}
+        if 'binary' in right and PREC[right['binary']['op']] <= PREC[op] and not self.bad():
+            right = {'group': right}
+        return {'binary': {'left': left, 'op': op, 'right': right}}
+
+    def tree(self, depth):
+        self.backslashes = 0
+        return self.expr(depth)
+
+
+def stream_print_parse(ctx):
+    st = ctx.stream('print-parse', 'random expression TREES to depth 6 (all 14 operators, groups, unary chains, calls with 0-4 arguments, identifiers '
+                                   'incl. keywords and generated-name look-alikes, odd names that need the [bracketed] form incl. blanks, ], backslashes, '
+                                   'non-ASCII, the one-blank name; integers to 30 digits and finite decimals; strings with both quotes, backslashes, '
+                                   'newlines, non-ASCII) -> printed by the model (Print.printExpr: the texts theorem C02.parse_print is about) -> '
+                                   'parsed by the real parse_expression: must be exactly the tree (numbers rounded like float()); the same token '
+                                   'sequence with a random pad of blanks (29 code points, or nothing at all) before every token and at the end must '
+                                   'give the same tree (C02.parse_print_ws); the model parser must give it too; Print.printable must agree with the '
+                                   'class re-stated in Python; trees outside the class (about 1 in 5, deliberate defects) are only tagged with the '
+                                   'reason and their text run through the implementation-only oracles; non-trivial = printable with at least 3 nodes')
+    rng = ctx.rng('print-parse')
+    gen = TreeGen(rng)
+    cases = []
+    for i in range(ctx.scale(2500, 60000)):
+        depth = 6 if i % 3 else rng.randint(1, 5)
+        cases.append((gen.tree(depth), rng.choice(PP_PADS)))
+    resps = ctx.driver.batch([{'op': 'print', 'expr': t, 'pad': pad} for t, pad in cases])
+    good = [(t, pad, r) for (t, pad), r in zip(cases, resps) if r.get('printable')]
+    parsed = iter(ctx.driver.batch([{'op': 'parse', 'text': r['text']} for _, _, r in good]))
+    for (tree, pad), resp in zip(cases, resps):
+        if 'text' not in resp:
+            ctx.disagree('print-parse', tree, 'a printed text', resp, 'driver could not decode the tree')
+            continue
+        text = resp['text']
+        depth, nodes, kinds = expr_stats(tree)
+        tags = [f'depth{depth}'] + sorted(kinds) + (['non-ascii'] if not text.isascii() else []) + (['bracketed'] if '[' in text else [])
+        if py_printable(tree) != bool(resp.get('printable')):
+            ctx.disagree('print-parse', tree, {'printable': py_printable(tree)}, resp, 'Print.printable differs from the class re-stated in Python')
+        if not resp.get('printable'):
+            st.case(tree, nontrivial=False, tags=tags + ['non-printable', 'why:' + resp.get('why', '?')])
+            if text.count('\\') <= MAX_BACKSLASHES:
+                _witness(ctx, text, impl_oracles(text))
+            continue
+        want = round_numbers(tree)
+        st.case(tree, nontrivial=nodes >= 3, tags=tags + ['printable', 'pad:' + ('none' if pad == '' else 'ascii' if pad.isascii() else 'unicode')])
+        mresp = next(parsed)
+        if mresp.get('expr') != tree:
+            ctx.disagree('print-parse', text, {'expr': tree}, mresp, 'model parser does not read the model printer back (contradicts C02.parse_print)')
+        for txt in (text, resp['padded']):
+            res = run_impl(txt)
+            ctx.compare('print-parse', txt, impl_out(res), {'expr': want})
+            _witness(ctx, txt, impl_oracles(txt, res, want))
+
+
 def shrink(text, budget=600):
     """Delta debugging on the characters of a failing text: a shorter text on which some oracle still fails on the implementation."""
     def fails(t):
@@ -779,6 +984,7 @@ def streams(ctx):
     stream_chaintext(ctx)
     stream_expr(ctx)
     stream_tokens(ctx)
+    stream_print_parse(ctx)
     shrink_witnesses(ctx)
 
 
@@ -841,9 +1047,13 @@ LEVEL_TEXT = ('Theorems, for texts of any length and nesting: the generated BINA
               'that chain parser over the operands it scanned, so every accepted tree is hereditarily precedence-respecting with unary '
               'operands and groups as leaves; accepted text is a whitespace-separated spelling of exactly the token sequence of the returned '
               'tree (nothing dropped or re-interpreted); the only failure is a parser error with 1 <= column <= length+1; fuel = text length '
-              'never runs out. The table and the regex sources are regenerated from parser.py on every run; the scanners and the parser are '
+              'never runs out. Print/parse round trip at text level: for every tree of the (decidable) printable class, of any size, the '
+              'canonical text Print.printExpr parses back to exactly that tree, also with arbitrary blanks before every token and at the end; '
+              'the printer is injective on the class; every tree the parser returns on any text is in the class up to one corner (a '
+              'bracketed variable name ending in a backslash, which has no context-independent spelling). The table and the regex sources are regenerated from parser.py on every run; the scanners and the parser are '
               'tied to parse_expression by differential correspondence (exhaustive 14^k chains as text, random expressions to depth 8, '
-              'malformed token strings) and by an independent precedence-climbing reference parser run against the implementation.')
+              'malformed token strings; random trees printed by the model printer and parsed by the real parser) and by an independent '
+              'precedence-climbing reference parser run against the implementation.')
 LEVEL_NOTE = ('Trusted: Lean kernel; extract.py; correspondence harness and its reference parser. Modelled not verified: CPython re (each '
               'token pattern re-implemented by hand, backtracking included; \\w and \\d on ASCII only - non-ASCII identifiers/digits are '
               'checked on the implementation only), float(text). Theorems are about the Lean model of parse_expression.')
